@@ -6,7 +6,7 @@
     own tags.  When the field visit order the implementation took is unknown (Validate mode, or a
     provider that could not be wrapped), the engine is run under every visit order and the case
     agrees if some order reproduces what was observed. *)
-From Zog Require Export Corr.EngineDSL.
+From Zog Require Export Corr.EngineDSL Corr.Verdict.
 From Zog Require Import Spec.Satisfies.
 Import ListNotations.
 Open Scope string_scope.
@@ -201,7 +201,6 @@ Definition oracle_tags (c : ecase) : list string :=
    ++ t (if pt_free (ec_sch c) then "repeat" else "repeat_ptgate") (ec_repeat c)
    ++ t "sat" (negb (ob_nil o) || negb (pt_free (ec_sch c)) || satisfies (ec_mode c) (ec_sch c) (ec_data c) (ob_dest o)))%list.
 
-Inductive verdict := Agree | Skip (why : string) | Fail (tags : list string).
 
 Definition check_case (c : ecase) : verdict :=
   let ot := oracle_tags c in
@@ -222,8 +221,7 @@ Definition check_case (c : ecase) : verdict :=
   end.
 
 Definition check_all (cs : list ecase) : list (nat * verdict) :=
-  filter (fun r => match snd r with Agree => false | _ => true end)
-         (map (fun c => (ec_id c, check_case c)) cs).
+  keep_bad (map (fun c => (ec_id c, check_case c)) cs).
 
 (** debugging aid: the model's outcome next to the observation *)
 Definition explain (cs : list ecase) :=
